@@ -72,6 +72,10 @@ pub fn run(ctx: &Ctx) -> Value {
             "subms": big(a.subsec_millis() as i128), "subus": big(a.subsec_micros() as i128)})));
         tw.emit(ev("d.neg", json!({"a": dur(a)}), || json!({"r": dur(-a), "abs": dur(a.abs()), "zero": a.is_zero()})));
         tw.emit(ev("d.show", json!({"a": dur(a)}), || json!({"text": cps(&a.to_string())})));
+        // the same text under format flags: whatever a flag does, the number written stays the exact one (blanks of a width flag trimmed)
+        tw.emit(ev("d.show", json!({"a": dur(a), "flags": ".0"}), || json!({"text": cps(format!("{:.0}", a).trim())})));
+        tw.emit(ev("d.show", json!({"a": dur(a), "flags": ".3"}), || json!({"text": cps(format!("{:.3}", a).trim())})));
+        tw.emit(ev("d.show", json!({"a": dur(a), "flags": ">40.12 / <3 / #"}), || json!({"text": cps(format!("{:>40.12}", a).trim()), "t2": cps(format!("{:<3}", a).trim()), "t3": cps(format!("{:#}", a).trim())})));
         tw.emit(ev("d.tostd", json!({"a": dur(a)}), || json!({"r": match a.to_std() { Ok(s) => json!({"secs": big(s.as_secs() as i128), "nanos": big(s.subsec_nanos() as i128)}), Err(_) => none() }})));
     }
     for (s, n) in [(0u64, 0u32), (1, 0), (0, 999_999_999), (max_s as u64, 806_999_999), (max_s as u64, 807_000_000), (max_s as u64, 807_000_001), (max_s as u64 + 1, 0), (u64::MAX, 999_999_999), (u64::MAX, 0), (1 << 63, 0), ((1 << 63) - 1, 5)] {
@@ -151,6 +155,10 @@ pub fn run(ctx: &Ctx) -> Value {
     }
     for j in 0..=31u32 { let a = (1i128 << (63 - j)) * 1_000_000; if j > 0 { for s in [1i128, -1] { for k in [(1i64 << j) as i32, (-(1i64 << j)) as i32] {
         if (k as i128).abs() == 1i128 << j { mul_pairs.push((s * a, k)); mul_pairs.push((s * (a - 1), k)); mul_pairs.push((s * (a + 1), k)); } } } } }
+    // products ~1000 times beyond the range, where seconds x multiplier itself comes within 2^31 of +-2^63 (an i64 intermediate)
+    for &k in [65_537i32, -65_537, 86_400, 1 << 16, 1 << 30, i32::MAX, i32::MIN, 999_999_937, -1_000_000, 1_001].iter() {
+        for d in [-1i128, 0, 1] { for f in [0i128, 999_999_999] { let a = ((i64::MAX as i128) / (k as i128).abs() + d) * NS + f; mul_pairs.push((a, k)); mul_pairs.push((-a, k)); } }
+    }
     for (an, k) in mul_pairs {
         let a = match mk_dur(an) { Some(a) => a, None => continue };
         tw.emit(ev("d.mul", json!({"a": dur(a), "k": big(k as i128)}), || json!({"r": od(a.checked_mul(k))})));
